@@ -77,7 +77,11 @@ def c02(idx: Index, rep: Report, tier: str) -> None:
     if not loops:
         rep.bad(rule, "get_unsatisfied_conditions evaluates the state invariants in the full check", f.loc(), construct="no loop over self._state_invariants", detail="is_applicable ignores state invariants and bounded types", function=f.qualname)
         return
-    reason_set = {n for n in cfg.nodes if isinstance(n.ast, ast.Assign) and norm(n.ast.targets[0]) == "reason" and not (isinstance(n.ast.value, ast.Constant) and n.ast.value.value is None)}
+    # the "reason": whatever name the function returns as second component
+    reasons = {r.value.elts[1].id for r in walk_no_nested(f.node) if isinstance(r, ast.Return) and isinstance(r.value, ast.Tuple) and len(r.value.elts) == 2 and isinstance(r.value.elts[1], ast.Name)}
+    if not reasons:
+        raise AnalysisError("anchor vanished: get_unsatisfied_conditions no longer returns (conditions, reason)")
+    reason_set = {n for n in cfg.nodes if isinstance(n.ast, ast.Assign) and norm(n.ast.targets[0]) in reasons and not (isinstance(n.ast.value, ast.Constant) and n.ast.value.value is None)}
     for t in fc:
         starts = [s for s in cfg.g.successors(t) if cfg.g[t][s].get("label") is True]
         w = None
